@@ -181,6 +181,26 @@ def scalar_laws(R: Recorder) -> None:
             R.monitor("predicates", ok, where={"kind": "predicate", "value_type": type(v).__name__}, detail=f"is_missing={is_missing(v)} not_missing={not_missing(v)} when_missing->{w!r} for {v!r}", case=case)
         except BaseException as exc:  # noqa: BLE001
             R.monitor("predicates", False, where={"kind": "predicate-raised", "value_type": type(v).__name__}, detail=repr(exc), case=case)
+    # when_missing hands the default back as it is, also when the default is something callable
+    import functools
+
+    class Handler:
+        def __call__(self) -> str:
+            return "called"
+
+        def method(self) -> str:
+            return "called"
+
+    for label, default in (("function", when_missing), ("lambda", lambda: "called"), ("class", int), ("partial", functools.partial(int, 1)), ("callable-object", Handler()), ("bound-method", Handler().method), ("builtin", len)):
+        case = {"op": "when_missing-default", "default": label}
+        try:
+            got = when_missing(M, default)
+            kept = when_missing(5, default)
+            ok = got is default and kept == 5
+            detail = f"when_missing(MISSING, <{label}>) -> {got!r}; when_missing(5, <{label}>) -> {kept!r}"
+        except BaseException as exc:  # noqa: BLE001
+            ok, detail = False, f"when_missing with a {label} default raised {exc!r}"
+        R.monitor("predicates", ok, where={"kind": "callable-default", "default": label}, detail=detail, case=case)
     for name in ("x", "value", "anything", "real", "items"):
         for kind in ("get", "set", "del"):
             try:
